@@ -120,6 +120,38 @@ def check(rep, F, tier, replay=None):
         errs = mp.error_stores(F, fid)
         if bad or len(errs) < 2:
             rep.violation("OVF", key, "%s no longer turns a non-representable result into an error (unwrap-like calls: %s, Err exits: %d)" % (key, bad, len(errs)), {})
+    # AS-u64: the fallible narrowing the fee functions end with is exact: None iff negative or >= 2^64
+    rep.rule("AS-u64", "BigInt::as_u64 (the conversion behind to_bignum_ceil / to_bignum_floor) answers Some for every non-negative value below 2^64: either it matches the u64-digit count (0 or 1 digit -> Some) or it compares bits() with a constant that admits exactly 64 bits")
+    fid = find_fn(rep, F, "BigInt::as_u64")
+    if fid:
+        rep.inst("AS-u64")
+        from ruleutil import gate_limit
+        fn = F.fns[fid]
+        tos = [(c.to or "") for c in F.calls(fid)]
+        if any(t.endswith("to_u64_digits") for t in tos) and not any(t.endswith("::bits") for t in tos):
+            lits = set()
+            for n_ in H.walk(F.hir[fid]["body"]):
+                if n_[0] == "match":
+                    sc = H.strip(n_[2])
+                    if H.is_node(sc) and sc[0] == "mcall" and sc[2] == "len":
+                        for pat, g, arm in n_[3]:
+                            for alt in H.pat_alternatives(pat):
+                                if alt and alt[0] == "plit" and alt[1][0] == "int" and "None" not in str(H.strip(arm))[:80]:
+                                    lits.add(int(alt[1][1]))
+            if lits != {0, 1}:
+                rep.violation("AS-u64", "digits|%s" % sorted(lits), "BigInt::as_u64 answers Some for %s u64 digits; exactly 0 and 1 digit fit into a u64" % sorted(lits), {})
+        elif any(t.endswith("::bits") for t in tos):
+            lims = []
+            for bi, bb in enumerate(fn["bbs"]):
+                for st in bb["st"]:
+                    if st[1] == "=" and (st[2] == "_0" or st[2].startswith("_0|")) and st[3][0] == "agg" and st[3][3] == "Some":
+                        lims.append(gate_limit(F, fid, bi)[0])
+            if not lims or any(l is None for l in lims):
+                rep.lost("BigInt::as_u64 compares bits() in a shape the rule cannot bound (re-anchor AS-u64)")
+            elif any(l != 64 for l in lims):
+                rep.violation("AS-u64", "bits|%s" % sorted(set(lims)), "BigInt::as_u64 answers Some only for values of at most %s bits; every value below 2^64 (64 bits) fits: script / reference-script fees in [2^%d, 2^64) are reported as overflow although the result is representable" % (sorted(set(lims)), min(lims)), {})
+        else:
+            rep.lost("BigInt::as_u64 neither matches the digit count nor compares bits() (re-anchor AS-u64)")
     return rep.finish(
         EXPLANATION,
         ["num-bigint's div_ceil / div_floor / pow are exact", "the closed-form geometric sum equals the tier-by-tier definition (not decided)"],
